@@ -315,6 +315,7 @@ fn main() {
     println(p.a, p.b, i, area());
 }`)},
 	{"many-warnings", Single("fn main() {\n    let unused_00 = 0;\n    let unused_01 = 1;\n    let unused_02 = 2;\n    let unused_03 = 3;\n    let unused_04 = 4;\n    let unused_05 = 5;\n    let unused_06 = 6;\n    let unused_07 = 7;\n    let unused_08 = 8;\n    let unused_09 = 9;\n    let unused_10 = 10;\n    let unused_11 = 11;\n    let unused_12 = 12;\n    let unused_13 = 13;\n    let unused_14 = 14;\n    let unused_15 = 15;\n    let unused_16 = 16;\n    let unused_17 = 17;\n    let unused_18 = 18;\n    let unused_19 = 19;\n    let unused_20 = 20;\n    let unused_21 = 21;\n    let unused_22 = 22;\n    let unused_23 = 23;\n    let unused_24 = 24;\n    let unused_25 = 25;\n    let unused_26 = 26;\n    let unused_27 = 27;\n    let unused_28 = 28;\n    let unused_29 = 29;\n    let unused_30 = 30;\n    let unused_31 = 31;\n    let unused_32 = 32;\n    let unused_33 = 33;\n    let unused_34 = 34;\n    let unused_35 = 35;\n    let unused_36 = 36;\n    let unused_37 = 37;\n    let unused_38 = 38;\n    let unused_39 = 39;\n    let unused_40 = 40;\n    let unused_41 = 41;\n    let unused_42 = 42;\n    let unused_43 = 43;\n    println(\"w\");\n}\nfn spare_a() {}\nfn spare_b() {}\n")},
+	{"very-many-warnings", Single("let unused_g00 = 0;\nlet unused_g01 = 1;\nlet unused_g02 = 2;\nlet unused_g03 = 3;\nlet unused_g04 = 4;\nlet unused_g05 = 5;\nlet unused_g06 = 6;\nlet unused_g07 = 7;\nlet unused_g08 = 8;\nlet unused_g09 = 9;\nlet unused_g10 = 10;\nlet unused_g11 = 11;\nlet unused_g12 = 12;\nlet unused_g13 = 13;\nlet unused_g14 = 14;\nlet unused_g15 = 15;\nlet unused_g16 = 16;\nlet unused_g17 = 17;\nlet unused_g18 = 18;\nlet unused_g19 = 19;\nlet unused_g20 = 20;\nlet unused_g21 = 21;\nlet unused_g22 = 22;\nlet unused_g23 = 23;\nlet unused_g24 = 24;\nlet unused_g25 = 25;\nlet unused_g26 = 26;\nlet unused_g27 = 27;\nlet unused_g28 = 28;\nlet unused_g29 = 29;\nlet unused_g30 = 30;\nlet unused_g31 = 31;\nlet unused_g32 = 32;\nlet unused_g33 = 33;\nlet unused_g34 = 34;\nlet unused_g35 = 35;\nlet unused_g36 = 36;\nlet unused_g37 = 37;\nlet unused_g38 = 38;\nlet unused_g39 = 39;\nlet unused_g40 = 40;\nlet unused_g41 = 41;\nlet unused_g42 = 42;\nlet unused_g43 = 43;\nlet unused_g44 = 44;\nlet unused_g45 = 45;\nlet unused_g46 = 46;\nlet unused_g47 = 47;\nlet unused_g48 = 48;\nlet unused_g49 = 49;\nlet unused_g50 = 50;\nlet unused_g51 = 51;\nlet unused_g52 = 52;\nlet unused_g53 = 53;\nlet unused_g54 = 54;\nlet unused_g55 = 55;\nlet unused_g56 = 56;\nlet unused_g57 = 57;\nlet unused_g58 = 58;\nlet unused_g59 = 59;\nlet unused_g60 = 60;\nlet unused_g61 = 61;\nlet unused_g62 = 62;\nlet unused_g63 = 63;\nlet unused_g64 = 64;\nlet unused_g65 = 65;\nlet unused_g66 = 66;\nlet unused_g67 = 67;\nlet unused_g68 = 68;\nlet unused_g69 = 69;\nfn main() {\n    let unused_00 = 0;\n    let unused_01 = 1;\n    let unused_02 = 2;\n    let unused_03 = 3;\n    let unused_04 = 4;\n    let unused_05 = 5;\n    let unused_06 = 6;\n    let unused_07 = 7;\n    let unused_08 = 8;\n    let unused_09 = 9;\n    let unused_10 = 10;\n    let unused_11 = 11;\n    let unused_12 = 12;\n    let unused_13 = 13;\n    let unused_14 = 14;\n    let unused_15 = 15;\n    let unused_16 = 16;\n    let unused_17 = 17;\n    let unused_18 = 18;\n    let unused_19 = 19;\n    let unused_20 = 20;\n    let unused_21 = 21;\n    let unused_22 = 22;\n    let unused_23 = 23;\n    let unused_24 = 24;\n    let unused_25 = 25;\n    let unused_26 = 26;\n    let unused_27 = 27;\n    let unused_28 = 28;\n    let unused_29 = 29;\n    let unused_30 = 30;\n    let unused_31 = 31;\n    let unused_32 = 32;\n    let unused_33 = 33;\n    let unused_34 = 34;\n    let unused_35 = 35;\n    let unused_36 = 36;\n    let unused_37 = 37;\n    let unused_38 = 38;\n    let unused_39 = 39;\n    let unused_40 = 40;\n    let unused_41 = 41;\n    let unused_42 = 42;\n    let unused_43 = 43;\n    let unused_44 = 44;\n    let unused_45 = 45;\n    let unused_46 = 46;\n    let unused_47 = 47;\n    let unused_48 = 48;\n    let unused_49 = 49;\n    let unused_50 = 50;\n    let unused_51 = 51;\n    let unused_52 = 52;\n    let unused_53 = 53;\n    let unused_54 = 54;\n    let unused_55 = 55;\n    let unused_56 = 56;\n    let unused_57 = 57;\n    let unused_58 = 58;\n    let unused_59 = 59;\n    let unused_60 = 60;\n    let unused_61 = 61;\n    let unused_62 = 62;\n    let unused_63 = 63;\n    let unused_64 = 64;\n    let unused_65 = 65;\n    let unused_66 = 66;\n    let unused_67 = 67;\n    let unused_68 = 68;\n    let unused_69 = 69;\n    let unused_70 = 70;\n    let unused_71 = 71;\n    let unused_72 = 72;\n    let unused_73 = 73;\n    let unused_74 = 74;\n    let unused_75 = 75;\n    let unused_76 = 76;\n    let unused_77 = 77;\n    let unused_78 = 78;\n    let unused_79 = 79;\n    println(\"w\");\n}\nfn other() {\n    let idle_00 = 0;\n    let idle_01 = 1;\n    let idle_02 = 2;\n    let idle_03 = 3;\n    let idle_04 = 4;\n    let idle_05 = 5;\n    let idle_06 = 6;\n    let idle_07 = 7;\n    let idle_08 = 8;\n    let idle_09 = 9;\n    let idle_10 = 10;\n    let idle_11 = 11;\n    let idle_12 = 12;\n    let idle_13 = 13;\n    let idle_14 = 14;\n    let idle_15 = 15;\n    let idle_16 = 16;\n    let idle_17 = 17;\n    let idle_18 = 18;\n    let idle_19 = 19;\n    let idle_20 = 20;\n    let idle_21 = 21;\n    let idle_22 = 22;\n    let idle_23 = 23;\n    let idle_24 = 24;\n    let idle_25 = 25;\n    let idle_26 = 26;\n    let idle_27 = 27;\n    let idle_28 = 28;\n    let idle_29 = 29;\n    let idle_30 = 30;\n    let idle_31 = 31;\n    let idle_32 = 32;\n    let idle_33 = 33;\n    let idle_34 = 34;\n    let idle_35 = 35;\n    let idle_36 = 36;\n    let idle_37 = 37;\n    let idle_38 = 38;\n    let idle_39 = 39;\n}\n")},
 	{"fails-at-once", Single(`
 fn main() {
     println("before");
